@@ -27,16 +27,111 @@ import (
 // (cache bookkeeping, logging, batching) are left out, so refactoring them does not change the
 // skeleton.  vlib/checks/c14.py writes the result to Generated/C14_Skeleton.lean and Tie/C14.lean
 // compares it with the skeleton the model was written against.
-var vRelevant = regexp.MustCompile(`\b(pendingResponses|numPredicted|numPredict|FindStop|TruncateStop|ContainsStopSuffix|IncompleteUnicode|flushPending|removeSequence|TokenIsEog|SpecialEOS|doneReason|responses|sequence|piece|joined|ValidString|CompletionResponse|DoneReason|quit|numDecoded)\b`)
+var vRelevant = regexp.MustCompile(`\b(pendingResponses|numPredicted|numPredict|FindStop|TruncateStop|ContainsStopSuffix|IncompleteUnicode|flushPending|removeSequence|TokenIsEog|SpecialEOS|doneReason|responses|sequence|ValidString|CompletionResponse|DoneReason|quit|numDecoded)\b`)
+
+// Local variables are handled by OBJECT, not by name, so that renaming a local is not a change of the skeleton:
+//   - `src` prints every occurrence of a local of the function as a marker `zzL<k>zz` (k = order of first occurrence);
+//     `real` puts the current names back, `skeleton_tmpl.txt` keeps the markers and the table k -> name, and
+//     vlib/checks/c14.py accepts a skeleton that equals the recorded one up to a renaming of locals (unification);
+//   - a statement is relevant if it mentions a word of vRelevant (fields / functions of the output state) or a local that
+//     CARRIES output text: one defined from Decode / TokenToPiece / strings.Join / FindStop or received from
+//     `.responses` (`piece`, `sequence`, `joined`, `stop`, `content` in the tree as pinned) — whatever it is called.
+var vProducer = regexp.MustCompile(`\b(Decode|TokenToPiece|strings\.Join|FindStop)\(|<-\s*\w+\.responses\b`)
+var vMarker = regexp.MustCompile(`zzL(\d+)zz`)
 
 type vSkel struct {
-	fset *token.FileSet
+	fset   *token.FileSet
+	locals map[*ast.Object]int
+	names  []string
+	rel    map[int]bool
 }
 
-func (v *vSkel) src(n ast.Node) string {
+func (v *vSkel) raw(n ast.Node) string {
 	var b bytes.Buffer
 	printer.Fprint(&b, v.fset, n)
 	return strings.Join(strings.Fields(b.String()), " ")
+}
+
+// src prints a node with the locals of the current function as markers
+func (v *vSkel) src(n ast.Node) string {
+	type saved struct {
+		id   *ast.Ident
+		name string
+	}
+	var undo []saved
+	ast.Inspect(n, func(x ast.Node) bool {
+		if id, ok := x.(*ast.Ident); ok && id.Obj != nil {
+			if k, ok := v.locals[id.Obj]; ok {
+				undo = append(undo, saved{id, id.Name})
+				id.Name = fmt.Sprintf("zzL%dzz", k)
+			}
+		}
+		return true
+	})
+	t := v.raw(n)
+	for _, u := range undo {
+		u.id.Name = u.name
+	}
+	return t
+}
+
+func (v *vSkel) real(t string) string {
+	return vMarker.ReplaceAllStringFunc(t, func(m string) string {
+		var k int
+		fmt.Sscanf(m, "zzL%dzz", &k)
+		return v.names[k]
+	})
+}
+
+func (v *vSkel) relevant(t string) bool {
+	if vRelevant.MatchString(v.real(t)) {
+		return true
+	}
+	for _, m := range vMarker.FindAllStringSubmatch(t, -1) {
+		var k int
+		fmt.Sscanf(m[1], "%d", &k)
+		if v.rel[k] {
+			return true
+		}
+	}
+	return false
+}
+
+// enter prepares the local-variable table of one function
+func (v *vSkel) enter(fd *ast.FuncDecl) {
+	v.locals, v.names, v.rel = map[*ast.Object]int{}, nil, map[int]bool{}
+	ast.Inspect(fd, func(x ast.Node) bool {
+		if id, ok := x.(*ast.Ident); ok && id.Obj != nil && id.Obj.Kind == ast.Var && id.Name != "_" {
+			if p := id.Obj.Pos(); p >= fd.Pos() && p <= fd.End() {
+				if _, seen := v.locals[id.Obj]; !seen {
+					v.locals[id.Obj] = len(v.names)
+					v.names = append(v.names, id.Name)
+				}
+			}
+		}
+		return true
+	})
+	ast.Inspect(fd, func(x ast.Node) bool {
+		as, ok := x.(*ast.AssignStmt)
+		if !ok || as.Tok != token.DEFINE {
+			return true
+		}
+		rhs := ""
+		for _, r := range as.Rhs {
+			rhs += v.raw(r) + " "
+		}
+		if !vProducer.MatchString(rhs) {
+			return true
+		}
+		for _, l := range as.Lhs {
+			if id, ok := l.(*ast.Ident); ok && id.Obj != nil && id.Name != "err" {
+				if k, ok := v.locals[id.Obj]; ok {
+					v.rel[k] = true
+				}
+			}
+		}
+		return true
+	})
 }
 
 // returns the tokens of a statement and whether it is relevant by itself
@@ -50,7 +145,7 @@ func (v *vSkel) stmt(s ast.Stmt) ([]string, bool) {
 			head += v.src(x.Init) + "; "
 		}
 		head += v.src(x.Cond)
-		rel := vRelevant.MatchString(head)
+		rel := v.relevant(head)
 		body, brel := v.block(x.Body.List)
 		toks := append([]string{head + " {"}, body...)
 		rel = rel || brel
@@ -66,7 +161,7 @@ func (v *vSkel) stmt(s ast.Stmt) ([]string, bool) {
 		if x.Cond != nil {
 			head += v.src(x.Cond)
 		}
-		rel := vRelevant.MatchString(head)
+		rel := v.relevant(head)
 		body, brel := v.block(x.Body.List)
 		return append(append([]string{head + " {"}, body...), "}"), rel || brel
 	case *ast.RangeStmt:
@@ -83,7 +178,7 @@ func (v *vSkel) stmt(s ast.Stmt) ([]string, bool) {
 			if cc.Comm != nil {
 				head = "case " + v.src(cc.Comm) + ":"
 			}
-			rel = rel || vRelevant.MatchString(head)
+			rel = rel || v.relevant(head)
 			body, brel := v.block(cc.Body)
 			rel = rel || brel
 			toks = append(append(toks, head), body...)
@@ -93,12 +188,12 @@ func (v *vSkel) stmt(s ast.Stmt) ([]string, bool) {
 		return []string{v.src(s)}, false
 	default:
 		t := v.src(s)
-		if strings.HasPrefix(t, "slog.") {
+		if strings.HasPrefix(v.real(t), "slog.") {
 			return nil, false
 		}
 		// len(seq.pendingResponses) only feeds the cache-length arithmetic (C07), not the output
-		probe := strings.ReplaceAll(t, "len(seq.pendingResponses)", "LEN")
-		return []string{t}, vRelevant.MatchString(probe)
+		probe := regexp.MustCompile(`len\((zzL\d+zz|\w+)\.pendingResponses\)`).ReplaceAllString(t, "LEN")
+		return []string{t}, v.relevant(probe)
 	}
 }
 
@@ -127,6 +222,9 @@ func (v *vSkel) block(list []ast.Stmt) ([]string, bool) {
 	return out, any
 }
 
+// vLocalNames: per function, the current names of its locals in marker order
+var vLocalNames = map[string][]string{}
+
 func vExtractFile(path string, funcs []string) (map[string][]string, error) {
 	fset := token.NewFileSet()
 	f, err := parser.ParseFile(fset, path, nil, 0)
@@ -142,8 +240,10 @@ func vExtractFile(path string, funcs []string) (map[string][]string, error) {
 		}
 		for _, name := range funcs {
 			if fd.Name.Name == name {
+				v.enter(fd)
 				toks, _ := v.block(fd.Body.List)
-				res[name] = toks
+				res[name] = toks // with markers
+				vLocalNames[path+"\t"+name] = append([]string(nil), v.names...)
 			}
 		}
 	}
@@ -159,8 +259,14 @@ func TestVerifC14Extract(t *testing.T) {
 	defer f.Close()
 	// completion: the HTTP handler that turns the Sequence's chunks and outcome into the JSON lines the client reads
 	funcs := []string{"processBatch", "removeSequence", "flushPending", "completion"}
+	ft, err := os.Create(filepath.Join(dir, "skeleton_tmpl.txt"))
+	if err != nil {
+		t.Fatal(err)
+	}
+	defer ft.Close()
 	for _, r := range []string{"ollamarunner", "llamarunner"} {
-		res, err := vExtractFile(filepath.Join("..", r, "runner.go"), funcs)
+		path := filepath.Join("..", r, "runner.go")
+		res, err := vExtractFile(path, funcs)
 		if err != nil {
 			t.Fatal(err)
 		}
@@ -170,8 +276,18 @@ func TestVerifC14Extract(t *testing.T) {
 				fmt.Fprintf(f, "%s\t%s\t<missing>\n", r, fn)
 				continue
 			}
+			names := vLocalNames[path+"\t"+fn]
+			subst := func(tk string) string {
+				return vMarker.ReplaceAllStringFunc(tk, func(m string) string {
+					var k int
+					fmt.Sscanf(m, "zzL%dzz", &k)
+					return names[k]
+				})
+			}
+			fmt.Fprintf(ft, "%s\t%s\t#locals\t%s\n", r, fn, strings.Join(names, ","))
 			for _, tk := range toks {
-				fmt.Fprintf(f, "%s\t%s\t%s\n", r, fn, tk)
+				fmt.Fprintf(f, "%s\t%s\t%s\n", r, fn, subst(tk))
+				fmt.Fprintf(ft, "%s\t%s\t%s\n", r, fn, tk)
 			}
 		}
 	}
